@@ -820,6 +820,146 @@ fn unseekable_case(c: &mut Case, fmt: usize, filter: bool, offline: bool, n: usi
     c.set_cell(format!("unseekable|{}|{}|{}|n{}", ["plain", "zstd", "gzip"][fmt], if filter { "filter" } else { "func" }, if offline { "offline" } else { "online" }, n));
 }
 
+
+// ---------------------------------------------------------------- the crate's own line lenders over a reader that fails
+
+/// A seekable in-memory source that returns an injected `io::Error` of a given
+/// kind from `read` once `at` bytes of pass `pass` have been read (a pass
+/// starts at every seek to offset 0).
+struct FaultyRead {
+    data: Vec<u8>,
+    pos: usize,
+    pass_no: u32,
+    fail_pass: u32,
+    fail_at: usize,
+    kind: std::io::ErrorKind,
+    delivered: std::rc::Rc<Cell<u32>>,
+}
+impl std::io::Read for FaultyRead {
+    fn read(&mut self, buf: &mut [u8]) -> std::io::Result<usize> {
+        if self.pass_no == self.fail_pass && self.pos >= self.fail_at {
+            self.delivered.set(self.delivered.get() + 1);
+            return Err(std::io::Error::new(self.kind, "suxmon-injected-read-fault"));
+        }
+        let mut n = buf.len().min(self.data.len() - self.pos);
+        if self.pass_no == self.fail_pass {
+            n = n.min(self.fail_at - self.pos);
+        }
+        buf[..n].copy_from_slice(&self.data[self.pos..self.pos + n]);
+        self.pos += n;
+        Ok(n)
+    }
+}
+impl std::io::Seek for FaultyRead {
+    fn seek(&mut self, p: std::io::SeekFrom) -> std::io::Result<u64> {
+        match p {
+            std::io::SeekFrom::Start(0) => {
+                self.pos = 0;
+                self.pass_no += 1;
+                Ok(0)
+            }
+            std::io::SeekFrom::Current(0) => Ok(self.pos as u64),
+            std::io::SeekFrom::Start(x) => {
+                self.pos = (x as usize).min(self.data.len());
+                Ok(self.pos as u64)
+            }
+            _ => Err(std::io::Error::new(std::io::ErrorKind::Unsupported, "suxmon: only absolute seeks")),
+        }
+    }
+}
+
+const READ_FAULT_KINDS: [(std::io::ErrorKind, &str); 6] = [
+    (std::io::ErrorKind::UnexpectedEof, "UnexpectedEof"),
+    (std::io::ErrorKind::Other, "Other"),
+    (std::io::ErrorKind::InvalidData, "InvalidData"),
+    (std::io::ErrorKind::TimedOut, "TimedOut"),
+    (std::io::ErrorKind::BrokenPipe, "BrokenPipe"),
+    (std::io::ErrorKind::PermissionDenied, "PermissionDenied"),
+];
+
+/// The keys come from sux's LineLender / ZstdLineLender / GzipLineLender over a
+/// reader that reports an I/O error at some byte offset of some pass (retry
+/// passes are forced by a duplicated key under check_dups), or over a stream
+/// truncated in the middle: the build must return an error, never Ok.
+fn faulty_reader_case(c: &mut Case, fmt: usize, kind_i: usize, pass: u32, frac: usize, filter: bool, truncate: bool, n: usize) {
+    use std::io::{BufReader, Cursor, Write};
+    use sux::utils::{FromIntoIterator, GzipLineLender, LineLender, ZstdLineLender};
+    let tag: u32 = c.rng().random();
+    let mut text = String::new();
+    for i in 0..n {
+        text.push_str(&format!("key-{:08x}-{}\n", tag, i));
+    }
+    if pass > 0 {
+        // a duplicated key: the first attempts fail and further passes are needed
+        let dup = c.rng().random_range(0..n);
+        text.push_str(&format!("key-{:08x}-{}\n", tag, dup));
+    }
+    let mut bytes: Vec<u8> = match fmt {
+        0 => text.into_bytes(),
+        1 => zstd::encode_all(text.as_bytes(), 3).expect("zstd"),
+        _ => {
+            let mut e = flate2::write::GzEncoder::new(Vec::new(), flate2::Compression::default());
+            e.write_all(text.as_bytes()).unwrap();
+            e.finish().unwrap()
+        }
+    };
+    let at = (bytes.len() * frac / 8).min(bytes.len().saturating_sub(1));
+    let (kind, kname) = READ_FAULT_KINDS[kind_i];
+    let delivered = std::rc::Rc::new(Cell::new(0u32));
+    let what = if truncate {
+        format!("{} keys, {} stream truncated after {} of {} bytes", n, ["plain", "zstd", "gzip"][fmt], at, bytes.len())
+    } else {
+        format!("{} keys{}, {} line lender over a reader failing with io::ErrorKind::{} after {} of {} bytes of pass {}, check_dups({}), {}", n, if pass > 0 { " + one repeated" } else { "" }, ["plain", "zstd", "gzip"][fmt], kname, at, bytes.len(), pass + 1, pass > 0, if filter { "filter" } else { "function" })
+    };
+    c.describe(|| what.clone());
+    if truncate {
+        bytes.truncate(at);
+    }
+    let seed: u64 = c.rng().random();
+    let src = || FaultyRead { data: bytes.clone(), pos: 0, pass_no: 0, fail_pass: if truncate { u32::MAX } else { pass }, fail_at: at, kind, delivered: delivered.clone() };
+    macro_rules! go {
+        ($l:expr) => {{
+            if filter {
+                VBuilder::<u8, Box<[u8]>>::default().seed(seed).check_dups(pass > 0).try_build_filter($l, no_logging![]).map(|f| f.len())
+            } else {
+                VBuilder::<usize, BitFieldVec<usize>>::default().seed(seed).check_dups(pass > 0).try_build_func($l, FromIntoIterator::from(0_usize..), no_logging![]).map(|f| f.len())
+            }
+        }};
+    }
+    let r: Result<anyhow::Result<usize>, String> = match fmt {
+        0 => catch(|| go!(LineLender::new(BufReader::with_capacity(512, src())))),
+        1 => catch(|| {
+            let l = ZstdLineLender::new(src())?;
+            go!(l)
+        }),
+        _ => catch(|| {
+            let l = GzipLineLender::new(src())?;
+            go!(l)
+        }),
+    };
+    c.tick(1);
+    let reached = truncate || delivered.get() > 0;
+    if !reached {
+        return; // the planned fault point was never reached (e.g. an earlier pass already ended the build): nothing to judge
+    }
+    // a plain stream cut in the middle is simply a shorter list of keys: only compressed streams are damaged by truncation
+    if truncate && fmt == 0 {
+        return;
+    }
+    match r {
+        Ok(Ok(len)) => c.fail(
+            if filter { "try_build_filter" } else { "try_build_func" },
+            "ok-after-read-fault",
+            "Ok returned although the key source reported an I/O error",
+            &format!("the build returned Ok (len() = {}) for {}", len, what),
+        ),
+        Ok(Err(_)) => {}
+        Err(m) => c.fail(if filter { "try_build_filter" } else { "try_build_func" }, "panic", &m, &format!("the build panicked for {}", what)),
+    }
+    c.nontrivial();
+    c.set_cell(format!("read-fault|{}|{}|pass{}|{}|{}|n{}", ["plain", "zstd", "gzip"][fmt], if truncate { "truncated" } else { kname }, pass, frac, if filter { "filter" } else { "func" }, n));
+}
+
 fn main() {
     default_thread_stacks();
     let mut ctx = Ctx::from_args("C17");
@@ -835,6 +975,28 @@ fn main() {
                 let offline = (i + fmt + filter as usize) % 2 == 1;
                 let variant = format!("{}/{}", ["LineLender", "ZstdLineLender", "GzipLineLender"][fmt], if filter { "filter" } else { "func" });
                 ctx.case(&variant, "cannot-rewind/unseekable-source", if filter { "try_build_filter" } else { "try_build_func" }, |c| unseekable_case(c, fmt, filter, offline, n));
+            }
+        }
+    }
+    // 0b. the crate's own line lenders over a reader that fails, and over truncated compressed streams
+    for fmt in 0..3usize {
+        for kind_i in 0..READ_FAULT_KINDS.len() {
+            for pass in 0..3u32 {
+                for frac in [0usize, 1, 4, 7] {
+                    if (fmt + kind_i + pass as usize + frac) % 2 == 1 && kind_i > 0 {
+                        continue; // half of the grid for the kinds other than UnexpectedEof
+                    }
+                    let filter = (kind_i + frac) % 2 == 1;
+                    let n = [40usize, 300, 2000][(kind_i + pass as usize) % 3];
+                    let variant = format!("{}/{}", ["LineLender", "ZstdLineLender", "GzipLineLender"][fmt], if filter { "filter" } else { "func" });
+                    ctx.case(&variant, &format!("read-fault/{}/pass{}", READ_FAULT_KINDS[kind_i].1, pass + 1), if filter { "try_build_filter" } else { "try_build_func" }, |c| faulty_reader_case(c, fmt, kind_i, pass, frac, filter, false, n));
+                }
+            }
+        }
+        for frac in [1usize, 3, 5, 7] {
+            for filter in [false, true] {
+                let variant = format!("{}/{}", ["LineLender", "ZstdLineLender", "GzipLineLender"][fmt], if filter { "filter" } else { "func" });
+                ctx.case(&variant, "read-fault/truncated-stream", if filter { "try_build_filter" } else { "try_build_func" }, |c| faulty_reader_case(c, fmt, 0, 0, frac, filter, true, 3000));
             }
         }
     }
@@ -993,7 +1155,8 @@ fn main() {
             DupShape::RunAtEnd(2),
             DupShape::RunAtEnd(10),
         ];
-        let mut sizes: Vec<usize> = vec![10, 11, 100, 101, 1000, 10_000, 99_999];
+        // (tiny key sets too: with at most 4 keys the fuse graph has a single sort key)
+        let mut sizes: Vec<usize> = vec![1, 2, 3, 4, 5, 10, 11, 100, 101, 1000, 10_000, 99_999];
         if !debug || thorough {
             sizes.push(100_000);
         }
